@@ -68,7 +68,7 @@ class Resolver:
         for _, _, d in entries:
             key = normalize_label(d['spelled'])
             if key not in self.map:
-                self.map[key] = (d['dest'], d['title'])
+                self.map[key] = (md_unescape(d['dest']), md_unescape(d['title']))     # 'dest' / 'title' are source spellings
 
     def lookup(self, label):
         return self.map.get(normalize_label(label))
